@@ -829,6 +829,10 @@ func (s *IndexedState) FindCachedRules(ctx *Context, event Map) (map[string]*Rul
 			if err != nil {
 				return nil, err
 			}
+			// Give the rule its id before it is shared via the
+			// cache.  (Event processing used to set it on the
+			// shared rule every time.)
+			rule.Id = id
 			acc[id] = rule
 			s.cacheMutex.Lock()
 			s.cachedRules[id] = rule
